@@ -162,10 +162,11 @@ Definition ms_raw_cross_sections (cext cscat asym_int : T) : T * T * T * T :=
   (cscat, cext - cscat, cext, asym_int / cscat).
 End Gen.
 
-(** * executable instance: Q with reduced fractions (doubles are dyadic; Qred keeps the folds small) *)
+(** * executable instance: Q with fractions reduced after every addition / subtraction (doubles are
+      dyadic; without the reduction the denominators of a fold multiply up; products need none) *)
 Definition QOr : Ops Q :=
-  mkOps Q 0%Q 1%Q (fun a b => Qred (a + b)) (fun a b => Qred (a * b)) (fun a b => Qred (a - b)) Qopp
-        (fun a => Qred (/ a)) Qltb Qle_bool Qeq_bool (fun z => inject_Z z).
+  mkOps Q 0%Q 1%Q (fun a b => Qred (a + b)) Qmult (fun a b => Qred (a - b)) Qopp
+        Qinv Qltb Qle_bool Qeq_bool (fun z => inject_Z z).
 
 (** comparison used by the generated correspondence files: |a - b| <= tol * scale *)
 Definition Qabs_ (x : Q) : Q := if Qle_bool 0 x then x else Qopp x.
